@@ -561,7 +561,12 @@ def align_up(rep, idx, rule):
         alt = [c.parse("((value + (1 << alignment) - 1) // (1 << alignment)) * (1 << alignment)"),
                c.parse("(value + (1 << alignment) - 1) & ~((1 << alignment) - 1)"),
                c.parse("-(-value // (1 << alignment)) * (1 << alignment)")]
-        if r in alt:
+        down = [c.parse("value - value % (1 << alignment)"), c.parse("(value // (1 << alignment)) * (1 << alignment)"),
+                c.parse("value & ~((1 << alignment) - 1)")]
+        if r in down:
+            rep.bad(rule, site, "_align_up moves to the next multiple", f"{ir.show(r)[:100]} rounds *down*: the range would start before the "
+                    "placement cursor / be smaller than requested")
+        elif r in alt:
             rep.ok(rule, site, "_align_up rounds up to a multiple of 2**alignment (closed form)", ir.show(r)[:100])
             rep.ok(rule, site, "_align_up leaves an already aligned value unchanged", "closed form", nontrivial=False)
             rep.ok(rule, site, "_align_up moves to the next multiple", "closed form", nontrivial=False)
